@@ -31,7 +31,7 @@ func init() {
 	register("C17", checkC17)
 	// ---- frozen table of reviewed panic sites (function:kind:expression -> reason)
 	allowPanic("(*proxy.client).localIP:panic:\"unhandled local address type\"", "listeners are created by resolveAndListen with network \"tcp\" only, so LocalAddr() is always *net.TCPAddr: configuration, not peer input")
-	allowPanic("(*proxy.request).handleErrorResult:typeassert:invoke (github.com/datastax/go-cassandra-native-protocol/frame.RawConverter).ConvertFromRawFrame#0.Body.Message.(message.Error)",
+	allowPanic("(*proxy.request).handleErrorResult:typeassert:github.com/datastax/cql-proxy/codecs.ConvertFromRawFrame#0.Body.Message.(message.Error)",
 		"only reached for opcode ERROR (rule C17.error-opcode); the library's error codec returns only types implementing message.Error")
 	allowPanic("(*codecs.FrameBodyReader).BytesSince:slice:r.Body[pos:(*github.com/datastax/cql-proxy/codecs.FrameBodyReader).Position()]", "pos is an earlier Position() of the same reader and the position of a bytes.Reader only grows up to len(Body) as long as nothing seeks it: rule C17.reader-position decides that no code moves the reader with Seek")
 	allowPanic("(*codecs.FrameBodyReader).RemainingBytes:slice:r.Body[(*github.com/datastax/cql-proxy/codecs.FrameBodyReader).Position():]", "0 <= Position() <= len(Body) for a bytes.Reader that is only read from (C17.reader-position)")
@@ -117,6 +117,7 @@ func checkC17(p *Prog, r *Report) {
 		}
 	}
 	c17ListenServiced(p, r)
+	c17AcceptLoop(p, r)
 	r.Rule("C17.selector-inputs", "the values of a virtual system row are produced from the table's columns, not from the selected ones: the size of the answer is linear in the length of the select list (a few kilobytes of ',*' cannot make the proxy build gigabytes)")
 	selectorInputs(p, r, "C17.selector-inputs")
 	c17NilStore(p, r)
@@ -512,7 +513,7 @@ func c17OffenderOnly(p *Prog, r *Report) {
 	var rb []string
 	eachCall(recv, func(c ssa.CallInstruction) {
 		cm := c.Common()
-		if cm.IsInvoke() && (cm.Method.Name() == "DecodeRawFrame" || cm.Method.Name() == "DecodeBody") {
+		if (cm.IsInvoke() && cm.Method.Name() == "DecodeRawFrame") || libDecodeKind(p, c) == "DecodeBody" {
 			v := c.(ssa.Value)
 			var errV ssa.Value
 			for _, ref := range *v.Referrers() {
@@ -806,17 +807,25 @@ func c17CrossWrites(p *Prog, r *Report) {
 // the other end of a connection.
 func c17DecodeGuard(p *Prog, r *Report) {
 	const rule = "C17.decode-guard"
-	r.Rule(rule, "every call of a value codec's Decode (datacodec.Codec) on bytes received from a peer runs in a function that recovers from a panic of the codec and returns it as an error: a malformed collection value in a system.local/system.peers row cannot take the process down")
+	r.Rule(rule, "every call into the library's decoders for bytes received from a peer (a value codec's Decode, the frame codec's ConvertFromRawFrame / DecodeBody / DecodeFrame, which run the message codecs) happens in a function that recovers from a panic of the decoder and returns it as an error: the library allocates from counts read off the wire without checking their sign (row, column and element counts), and a panic in a reader goroutine ends the process")
 	n := 0
 	var bad []string
 	for _, fn := range p.ScopedFuncs("codecs", "proxy", "proxycore", "astra") {
 		eachCall(fn, func(c ssa.CallInstruction) {
 			cm := c.Common()
-			if !cm.IsInvoke() || cm.Method.Name() != "Decode" {
+			if !cm.IsInvoke() {
 				return
 			}
 			rn := namedOf(cm.Value.Type())
-			if rn == nil || rn.Obj().Name() != "Codec" || rn.Obj().Pkg() == nil || !strings.HasSuffix(rn.Obj().Pkg().Path(), "/datacodec") {
+			if rn == nil || rn.Obj().Pkg() == nil {
+				return
+			}
+			switch {
+			case cm.Method.Name() == "Decode" && rn.Obj().Name() == "Codec" && strings.HasSuffix(rn.Obj().Pkg().Path(), "/datacodec"):
+				// a value codec
+			case (cm.Method.Name() == "ConvertFromRawFrame" || cm.Method.Name() == "DecodeBody" || cm.Method.Name() == "DecodeFrame") && strings.HasSuffix(rn.Obj().Pkg().Path(), "/frame"):
+				// the message codecs behind the frame codec (row and column counts, reason maps)
+			default:
 				return
 			}
 			n++
@@ -856,12 +865,12 @@ func c17DecodeGuard(p *Prog, r *Report) {
 				}
 			})
 			if !guarded {
-				bad = append(bad, fmt.Sprintf("%s: %s decodes a value received from a peer without recovering from a panic of the value codec (a list/set/map value with element count -1 panics in reflect.MakeSlice and ends the process)", p.Pos(c.Pos()), fn.Name()))
+				bad = append(bad, fmt.Sprintf("%s: %s calls %s on bytes received from a peer without recovering from a panic of the decoder (a count of -1 where the library allocates - rows, columns, collection elements - panics and ends the process)", p.Pos(c.Pos()), fn.Name(), cm.Method.Name()))
 			}
 		})
 	}
 	r.count("value_decode_sites", n)
-	r.check(len(bad) == 0 && n > 0, rule, "value codec Decode sites", "", fmt.Sprintf("%d site(s), each under a recover", n), strings.Join(dedupe(bad), " || "))
+	r.check(len(bad) == 0 && n > 2, rule, "library decode sites", "", fmt.Sprintf("%d site(s), each under a recover", n), strings.Join(dedupe(bad), " || "))
 }
 
 
@@ -927,4 +936,93 @@ func c17ListenServiced(p *Prog, r *Report) {
 		})
 	}
 	r.check(len(bad) == 0 && n >= 2, rule, "Cluster.stayConnected", p.Pos(loop.Pos()), fmt.Sprintf("%d waits of the loop, each takes new listeners", n), strings.Join(dedupe(bad), " || "))
+}
+
+
+// c17AcceptLoop: the loop that accepts client connections serves every client; nothing in it may
+// wait for one peer.
+func c17AcceptLoop(p *Prog, r *Report) {
+	const rule = "C17.accept-loop"
+	r.Rule(rule, "the accept loop and the functions it calls synchronously never wait for bytes from the connection just accepted (no TLS handshake, no read): a peer that connects and sends nothing must not keep later clients from being accepted; per-connection work runs in the connection's own goroutines")
+	var loops []*ssa.Function
+	for _, fn := range p.ScopedFuncs("proxy", "proxycore") {
+		if callsDirectly(fn, func(c ssa.CallInstruction) bool {
+			cm := c.Common()
+			if !cm.IsInvoke() || cm.Method.Name() != "Accept" {
+				return false
+			}
+			n := namedOf(cm.Value.Type())
+			return n != nil && n.Obj().Name() == "Listener" && n.Obj().Pkg() != nil && n.Obj().Pkg().Path() == "net"
+		}) && fn.Parent() == nil && recvNamed(fn) != nil && !strings.Contains(p.fileOf(fn), "mock") {
+			// (wrappers of net.Listener that forward Accept are not loops)
+			hasLoop := false
+			for _, b := range fn.Blocks {
+				if isLoopHeader(b) {
+					hasLoop = true
+				}
+			}
+			if hasLoop {
+				loops = append(loops, fn)
+			}
+		}
+	}
+	if len(loops) == 0 {
+		fatalf("rule %s: no accept loop found", rule)
+	}
+	for _, lp := range loops {
+		var bad []string
+		// synchronous callees: Call instructions only (not `go`), repo functions, a few levels deep
+		seen := map[*ssa.Function]bool{lp: true}
+		work := []*ssa.Function{lp}
+		depth := map[*ssa.Function]int{lp: 0}
+		for len(work) > 0 {
+			fn := work[0]
+			work = work[1:]
+			eachInstr(fn, func(in ssa.Instruction) {
+				call, ok := in.(*ssa.Call)
+				if !ok {
+					return
+				}
+				cm := call.Common()
+				name := ""
+				var recvT types.Type
+				if cm.IsInvoke() {
+					name, recvT = cm.Method.Name(), cm.Value.Type()
+				} else if callee := cm.StaticCallee(); callee != nil {
+					name = callee.Name()
+					if callee.Signature.Recv() != nil {
+						recvT = callee.Signature.Recv().Type()
+					}
+					if p.InRepo(callee) && callee.Blocks != nil && !seen[callee] && depth[fn] < 4 {
+						seen[callee] = true
+						depth[callee] = depth[fn] + 1
+						work = append(work, callee)
+					}
+					if callee.Pkg != nil && callee.Pkg.Pkg.Path() == "io" && (name == "ReadFull" || name == "ReadAll" || name == "ReadAtLeast") {
+						bad = append(bad, fmt.Sprintf("%s: %s waits for bytes from a peer (io.%s) inside the accept loop", p.Pos(call.Pos()), fn.Name(), name))
+					}
+				}
+				if recvT == nil {
+					return
+				}
+				n := namedOf(recvT)
+				if n == nil || n.Obj().Pkg() == nil {
+					return
+				}
+				pkg := n.Obj().Pkg().Path()
+				isConn := (pkg == "crypto/tls" && n.Obj().Name() == "Conn") || (pkg == "net" && (n.Obj().Name() == "Conn" || n.Obj().Name() == "TCPConn")) || (pkg == "bufio" && n.Obj().Name() == "Reader")
+				if !isConn {
+					return
+				}
+				switch name {
+				case "Handshake", "HandshakeContext", "Read", "ReadByte", "ReadString", "ReadBytes", "Peek", "ConnectionState":
+					if name == "ConnectionState" {
+						return
+					}
+					bad = append(bad, fmt.Sprintf("%s: %s calls %s.%s on the accepted connection inside the accept loop: it waits for the peer (no deadline), and while it waits no other client is accepted", p.Pos(call.Pos()), fn.Name(), n.Obj().Name(), name))
+				}
+			})
+		}
+		r.check(len(bad) == 0, rule, recvNamed(lp).Obj().Name()+"."+lp.Name(), p.Pos(lp.Pos()), fmt.Sprintf("%d function(s) run synchronously in the loop", len(seen)), strings.Join(dedupe(bad), " || "))
+	}
 }
